@@ -6,7 +6,13 @@ parse+emit, compiled against the mock core and run with a scripted millis() per 
 coq/Device/DLCDAnim.v.  Independently of the models a property oracle is evaluated on every real
 trace (no delay, geometry, termination bound, looping never ends, rate limit, one step per due tick), for every
 animation that has its row to itself, on schedules that contain late passes followed by quick ones.  The oracle's notion
-of a due tick is cross-checked against the extracted specification schedule due_flags (C18_step_schedule_*)."""
+of a due tick is cross-checked against the extracted specification schedule due_flags (C18_step_schedule_*).
+
+Clock width: the device model the firmware is compared with is Device/DLCDAnimW.v - the limiter in W-bit unsigned arithmetic
+(W = 64 under the mock's compiler) over true tick times.  Schedules reach every region in which fixed-width arithmetic on
+millis() can go wrong: runs that cross 2^31, 2^32, 2^63 ms, runs that END at the largest unsigned long (steps within speed_ms
+of it followed by early ticks, the clock never wrapping - input line `clockbase` of the mock), periods beyond 2^31 / 2^32 ms,
+passes late by more than 2^31 / 2^32 / 2^33 ms, and (correspondence only) runs across the roll-over itself."""
 from __future__ import annotations
 
 import re
@@ -17,7 +23,7 @@ from harness import fw
 META = {
     "id": "C18",
     "technique": "Coq proof (induction over tick histories; per-style variants and invariants; finite obligations over tables regenerated from the source) + extracted-model correspondence with the real LCD object and with the emitted C++ animation helpers run under the mock core + trace oracle",
-    "level_text": "Theorems C18_* (coq/Props/C18.v) are proved for all texts, widths >= 1, speeds, loop flags and all tick-time sequences about Gallina transcriptions of LCD.animate/LCD.tick and of the four __redu_lcd_start_*/__redu_lcd_tick_* template pairs plus the tick-injection rule, and (C18_tables_complete) about the style/helper tables and helper texts re-read from emitter.py, parser.py and LCD.py on every run; the models are run side by side with the real host object (buffer assignments and every _AnimationState field after each tick) and with the compiled firmware (cell writes and DDRAM dump per loop() pass).",
+    "level_text": "Theorems C18_* (coq/Props/C18.v) are proved for all texts, widths >= 1, speeds, loop flags and all tick-time sequences about Gallina transcriptions of LCD.animate/LCD.tick and of the four __redu_lcd_start_*/__redu_lcd_tick_* template pairs plus the tick-injection rule - the device rate limiter also in the W-bit unsigned arithmetic of the emitted C++ for every width W (C18_width_model_agrees_device, C18_rate_limit_device_width: every clock value below 2^W; C18_rollover_trace_device_partial: across the roll-over) -, and (C18_tables_complete) about the style/helper tables and helper texts re-read from emitter.py, parser.py and LCD.py on every run; the models are run side by side with the real host object (buffer assignments and every _AnimationState field after each tick) and with the compiled firmware (cell writes and DDRAM dump per loop() pass).",
     "level_note": "Trusted: Coq kernel, extraction, OCaml driver, the mock LiquidCrystal/LiquidCrystal_I2C (cursor-addressed DDRAM) and its virtual millis(), g++. The theorems are about the models; the correspondence bounds their distance from LCD.py / emitter.py. Tick injection is proved without a guard on the place of the call site (C18_tick_injected, C18_loop_site_ticked, C18_function_site_ticked): before the main loop, inside `while True:` and inside function bodies, at any depth inside if/elif/else, while, for and try/except bodies (Device/DLCDInject.v: the parser's name collection and the emitter's registration pass as two recursive walks over statement trees, C18_nested_*); the two former refutations (animate inside `while True:` never ticked; animate inside a def undeclared) were repaired in Reduino and are kept as kind=fixed entries whose witnesses are replayed first on every run (a witness that fails again is a VIOLATION).",
     "design_ref": "DESIGN.md section 4 C18 (and C05 for tick injection)",
 }
@@ -29,6 +35,15 @@ SPEEDS = [0, 1, 100]
 KINDS = ["ontime", "early", "late", "equal", "burst"]
 BIG_CLOCK = 2147483000        # a run started here crosses 2^31 ms (signed 32-bit arithmetic on millis() goes wrong)
 ALPHA = "ABCDEFGHIJKLMNOPQRSTUVWXYZabcdefghijklmnopqrstuvwxyz0123456789"
+WBITS = 64                    # unsigned long of the hosted mock core (g++ x86-64): 64 bits (AVR: 32); the theorems quantify over W
+ULONG_MAX = (1 << WBITS) - 1
+HIGH = 1 << 40                # a first tick at or above this is scripted through the mock's `clockbase` (added to millis() only)
+# clock values at which fixed-width arithmetic on millis() goes wrong when it is narrower / signed / a sum instead of a
+# difference: a run started a little below 2^31, 2^32, 2^63 crosses that value; a run aligned to END at the largest
+# unsigned long (or 1, 3 ms below it) has steps within speed_ms of it followed by early ticks, the clock never wrapping
+CROSS_AT = [1 << 31, 1 << 32, 1 << 63]
+TOP_ENDS = [ULONG_MAX, ULONG_MAX - 1, ULONG_MAX - 3]
+BIG_SPEEDS = [(1 << 31) + 5, (1 << 32) + 7]          # periods that do not fit a 32-bit signed / unsigned field
 
 
 def tally(stats, key, val):
@@ -83,7 +98,7 @@ def burst_pattern(unit):
             unit + 1, max(0, unit - 2), 1, 1]                                      # a bit late, early, early/on time
 
 
-def tick_times(kind, speed, n_due, rng, start=None, cap=1200):
+def tick_times(kind, speed, n_due, rng, start=None, cap=1200, high=False):
     unit = speed if speed > 0 else 1
     pats = {
         "ontime": [unit],
@@ -91,9 +106,15 @@ def tick_times(kind, speed, n_due, rng, start=None, cap=1200):
         "late": [unit + 1, 2 * unit, unit + unit // 2 + 1, 3 * unit + 7],
         "equal": [unit, 0, 0, unit, 0],
         "burst": burst_pattern(unit),
+        # passes that are late by more than 2^31 / 2^32 / 2^33 ms, each followed by an early and an on-time one
+        "verylate": [unit, (1 << 31) + 3, max(0, unit - 1), 1, (1 << 32) + 5, unit // 2, unit - unit // 2, (1 << 33) + unit, 0, unit],
         "mixed": None,
     }
     t = start if start is not None else rng.choice([1, 7, 1000, 1000, BIG_CLOCK])
+    if high and start is None and rng.random() < 0.25:
+        # (host: Python ints) far beyond any machine word / the 53 bits of a float: a limiter that goes through float or a
+        # fixed width loses milliseconds there
+        t = rng.choice([(1 << 32) - 3 * unit - 2, (1 << 53) - unit - 1, (1 << 63) - 2 * unit, (1 << 64) - 5 * unit - 3, 10 ** 30])
     times = [t]
     i = 0
     while sum(ideal_due(times, speed)) < n_due and len(times) < cap:
@@ -104,6 +125,34 @@ def tick_times(kind, speed, n_due, rng, start=None, cap=1200):
         t += inc
         times.append(t)
     return times
+
+
+def align_end(times, end):
+    """the same schedule (same gaps) shifted so that its last tick is at `end`; the first tick stays positive"""
+    shift = end - times[-1]
+    if times[0] + shift < 1:
+        shift = 1 - times[0]
+    return [t + shift for t in times]
+
+
+def top_schedule(kind, speed, n_ticks, rng, end):
+    """a short schedule that ENDS at `end` (the largest unsigned long or just below): the gaps of `kind`, closed by an
+    on-time pass, a pass in the same millisecond and one in the last early millisecond, so that whatever the phase of
+    the pattern a step within speed_ms of `end` is followed by early ticks while the clock is still below `end`"""
+    unit = speed if speed > 0 else 1
+    times = tick_times(kind, speed, 10 ** 9, rng, start=1, cap=n_ticks)
+    for inc in [unit, 0, max(0, unit - 1) // 2, max(0, unit - 1) - max(0, unit - 1) // 2]:
+        times.append(times[-1] + inc)
+    return align_end(times, end)
+
+
+def clock_input(nows):
+    """the mock's input lines for a pass schedule with absolute millis() values `nows` (true times: beyond 2^WBITS the
+    register has rolled over).  A first tick at or above HIGH is reached through `clockbase` (an offset of millis()
+    only: setup() then runs at millis() = nows[0] - 1 instead of 0; the start helpers never read the clock)"""
+    base = nows[0] - 1 if nows and nows[0] >= HIGH else 0
+    incs = [nows[0] - base] + [b - a for a, b in zip(nows, nows[1:])] if nows else []
+    return (f"clockbase {base % (1 << WBITS)}\n" if base else "") + "clock0 0\npass " + " ".join(str(x) for x in incs) + "\n"
 
 
 # --------------------------------------------------------------------------------------------
@@ -383,7 +432,7 @@ def gen_host_cases(ctx):
         n_due = bound(n, cols) + 2
         if loop and not thorough:
             n_due = min(n_due, 3 * cols + n + 4, 60)
-        nows = tick_times(kind, speed, n_due, rng, cap=900)
+        nows = tick_times(kind, speed, n_due, rng, cap=900, high=True)
         cases.append({"cols": cols, "rows": rows, "i2c": j % 2 == 1, "anims": [[style, row, text, speed, loop]],
                       "nows": nows, "tick_kw": j % 5 == 0, "tag": f"grid:{kind}"})
         if j % 9 == 4:
@@ -401,7 +450,7 @@ def gen_host_cases(ctx):
         speed = rng.choice([-5, 0, 1, 2, 3, 50, 100, 250, 1000, 70000])
         loop = rng.random() < 0.5
         text = rng.choice(extra_texts) if rng.random() < 0.5 else mk_text(rng.randint(0, 2 * cols + 1), salt=j, spaced=True)
-        nows = tick_times(["mixed", "burst"][j // 4 % 2], max(speed, 0), min(bound(len(text), cols) + 2, 70), rng, cap=400)
+        nows = tick_times(["mixed", "burst"][j // 4 % 2], max(speed, 0), min(bound(len(text), cols) + 2, 70), rng, cap=400, high=True)
         cases.append({"cols": cols, "rows": rows, "i2c": False, "anims": [[style, rng.randrange(rows), text, speed, loop]],
                       "nows": nows, "tag": "random"})
     # several animations on one display (distinct rows, shared rows), invalid styles / rows mixed in
@@ -414,7 +463,7 @@ def gen_host_cases(ctx):
             st = rng.choice(STYLES + (["SCROLL", "Blink", "wave"] if rng.random() < 0.2 else []))
             row = rng.randrange(rows) if rng.random() < 0.85 else rng.choice([-1, rows, rows + 3])
             anims.append([st, row, mk_text(rng.choice(len_classes(cols)), salt=j + len(anims)), rng.choice([0, unit, unit, 1, 3, 100, -2]), rng.random() < 0.5])
-        nows = tick_times(["mixed", "burst"][j % 2], unit, 40, rng, cap=200)
+        nows = tick_times(["mixed", "burst"][j % 2], unit, 40, rng, cap=200, high=True)
         cases.append({"cols": cols, "rows": rows, "i2c": False, "anims": anims, "nows": nows, "tag": "multi"})
         if j % 2 == 0:
             # a second display alive in the same process: created first, its animations started before and after the
@@ -710,7 +759,8 @@ def parse_phase(events):
 
 def device_model_case(d, nows):
     # the device String holds the UTF-8 bytes of the literal: the model text is the byte list
-    return [1, d["cols"], d["rows"], [[CODE[a[0]], a[1], list(a[2].encode("utf-8")), a[3], bool(a[4])] for a in d["anims"]], list(nows)]
+    # case 6: the limiter in WBITS-bit unsigned arithmetic over TRUE tick times (millis() = t mod 2^WBITS)
+    return [6, WBITS, d["cols"], d["rows"], [[CODE[a[0]], a[1], list(a[2].encode("utf-8")), a[3], bool(a[4])] for a in d["anims"]], list(nows)]
 
 
 def dec_dev(evs):
@@ -769,6 +819,11 @@ def device_oracle(ctx, case, setup, passes, lid, stats):
                 return
     # per-animation relations: every animation that has its row to itself (its steps are then exactly the passes
     # that write cells of that row).  Animations sharing a row are covered by the global relations above only.
+    if nows and nows[-1] > ULONG_MAX:
+        # the clock rolls over during this run: the values millis() returns are not non-decreasing - outside the
+        # property's quantifier.  Only the time-independent relations above are judged (the run is in the correspondence)
+        stats["dev_rollover_runs_not_judged_by_the_time_relations"] = stats.get("dev_rollover_runs_not_judged_by_the_time_relations", 0) + 1
+        return
     row_use = {}
     for a in anims:
         row_use[a[1]] = row_use.get(a[1], 0) + 1
@@ -940,10 +995,70 @@ def gen_device_groups(ctx):
                 if s["loop"]:
                     nd = min(nd, s["n"] + 3 * s["cols"] + 4, 70 if not thorough else 170)
                 need = max(need, nd)
-            # the clock at the first pass rotates over small values and one just below 2^31 ms (the run crosses it)
-            start = [1, 7, 1000, BIG_CLOCK][len(sketches) % 4]
+            # the clock at the first pass rotates over small values, one just below 2^31 ms (the run crosses it), just
+            # below 2^32 and 2^63 (crossed), and schedules aligned to END at the largest unsigned long / 1 / 3 ms below
+            # it (the clock never wraps; looping animations are still stepping there)
+            q8 = len(sketches) % 8
+            start = [1, 7, 1000, BIG_CLOCK, 1, CROSS_AT[1] - 40 - 3 * max(speed, 1), 7, CROSS_AT[2] - 25 - 2 * max(speed, 1)][q8]
             nows = tick_times(kind, speed, need, rng, start=start, cap=700)
-            sketches.append({"lcds": lcds, "nows": nows, "runtime_speed": False, "tag": f"grid:{speed}:{kind}:{cls}"})
+            clock = ["low", "low", "low", "crosses 2^31", "ends at ULONG_MAX", "crosses 2^32", "ends just below ULONG_MAX", "crosses 2^63"][q8]
+            if q8 in (4, 6):
+                nows = align_end(nows, TOP_ENDS[(len(sketches) // 8 + (q8 == 6)) % len(TOP_ENDS)] if q8 == 6 else ULONG_MAX)
+            sketches.append({"lcds": lcds, "nows": nows, "runtime_speed": False, "tag": f"grid:{speed}:{kind}:{cls}", "clock": clock})
+    # (a) TOP: every style x loop flag on short schedules that END at the largest unsigned long (or 1 / 3 ms below):
+    #     all animations - non-looping ones too - take their steps within a few periods of ULONG_MAX, each step is
+    #     followed by early ticks, the clock never wraps.  A limiter that adds (last_step + speed_ms) instead of
+    #     subtracting, or compares in a signed type, steps on the early ticks here and nowhere else.
+    # (b) CROSS: the same displays on schedules that cross 2^31, 2^32, 2^63 within their first periods.
+    # (c) BIG PERIOD: speed_ms beyond 2^31 / 2^32 (does not fit a 32-bit field), passes that are early by a lot.
+    # (d) VERY LATE: gaps of more than 2^31 / 2^32 / 2^33 ms between passes (a truncated `elapsed` looks early).
+    def family(tag, speed, nows, salt, clock, texts=None):
+        lcds = []
+        for q, (style, loop) in enumerate([(st, lp) for st in STYLES for lp in (True, False)]):
+            cols, n = [(8, 3), (3, 5), (16, 16), (5, 2)][(q + salt) % 4]
+            rows = [2, 1, 4][(q + salt) % 3]
+            lcds.append({"name": f"t{q:02d}", "cols": cols, "rows": rows, "i2c": (q + salt) % 2 == 1,
+                         "anims": [[style, (q + salt) % rows, mk_text(n, salt=salt + q), speed, loop]]})
+            if q % 4 == 3:
+                lcds[-1]["wrap"] = ["def", "mainloop", "if", "try"][(salt + q // 4) % 4]
+        sketches.append({"lcds": lcds, "nows": nows, "runtime_speed": False, "tag": tag, "clock": clock})
+    top_speeds = [1, 7, 100, 1000, 70000] if thorough else [1, 100, 1000]
+    top_kinds = ["early", "burst", "equal", "mixed", "ontime", "late"] if thorough else ["early", "burst", "mixed"]
+    jj = 0
+    for speed in top_speeds:
+        for kind in (top_kinds if thorough else [top_kinds[jj % 3], top_kinds[(jj + 1) % 3]]):
+            end = TOP_ENDS[jj % len(TOP_ENDS)] if jj % 2 else ULONG_MAX
+            family(f"top:{speed}:{kind}", speed, top_schedule(kind, speed, 14 if not thorough else 22, rng, end), jj, "ends at/just below ULONG_MAX (short)")
+            jj += 1
+    for ci, at in enumerate(CROSS_AT):
+        for speed in ([100] if not thorough else [1, 100, 1000]):
+            kind = ["burst", "early", "mixed"][(ci + jj) % 3]
+            before = [speed // 2 + 1, 3 * speed + 1, 1][(ci + jj) % 3]
+            family(f"cross:{speed}:{kind}", speed, tick_times(kind, speed, 10 ** 9, rng, start=at - before, cap=20 if not thorough else 40), jj,
+                   f"crosses 2^{at.bit_length() - 1} (short)")
+            jj += 1
+    for speed in BIG_SPEEDS:
+        family(f"bigspeed:{speed}", speed, tick_times("burst", speed, 10 ** 9, rng, start=[1000, 7][jj % 2], cap=19), jj, "low, period > 2^31")
+        jj += 1
+        if thorough:
+            family(f"bigspeed-top:{speed}", speed, align_end(tick_times("early", speed, 10 ** 9, rng, start=1, cap=12), ULONG_MAX), jj, "ends at ULONG_MAX, period > 2^31")
+            jj += 1
+    for speed in ([100] if not thorough else [1, 100, 70000]):
+        family(f"verylate:{speed}", speed, tick_times("verylate", speed, 10 ** 9, rng, start=1000, cap=21), jj, "low, gaps > 2^31 / 2^32 / 2^33 ms")
+        jj += 1
+    # (e) ROLL-OVER (correspondence with the W-bit model only - the register values are not non-decreasing, so the
+    #     property's time relations are not evaluated): the run starts a little below 2^WBITS and goes on beyond it,
+    #     once with a tick in the very millisecond in which millis() reads 0
+    for ri, (speed, before) in enumerate([(100, 130), (100, 250)] if not thorough else [(100, 130), (100, 250), (1, 5), (1000, 2400), (7, 20)]):
+        M = 1 << WBITS
+        if ri % 2 == 0:
+            times = tick_times(["burst", "early"][(ri // 2) % 2], speed, 10 ** 9, rng, start=M - before, cap=24)
+        else:
+            # on-time passes that land exactly on 2^WBITS (millis() == 0): the step taken there stores last_step = 0,
+            # the code's marker for "clock not running" (C18_rollover_zero_reading_refuted) - then early / on-time passes
+            times = [M - before] + [M - 2 * speed, M - speed, M, M + 1, M + speed // 2, M + speed, M + speed + 1, M + 2 * speed, M + 3 * speed - 1, M + 3 * speed + 1]
+        family(f"rollover:{speed}", speed, times, jj, "rolls over 2^64 (correspondence only)")
+        jj += 1
     # several animations on one display and on two displays, mixed speeds, shared rows; some with run-time speed/row
     for j in range(12 if thorough else 4):
         lcds = []
@@ -990,8 +1105,7 @@ def run_device(ctx, stats):
         if not t["ok"]:
             ctx.fail("transpiler rejected a script with lcd.animate call sites", {"script": src}, "C++", t, key="dev-transpile")
             continue
-        incs = [s["nows"][0]] + [b - a for a, b in zip(s["nows"], s["nows"][1:])]
-        inp = "clock0 0\npass " + " ".join(str(x) for x in incs) + "\n"
+        inp = clock_input(s["nows"])
         if s["runtime_speed"]:
             inp += f"ar 14 {s['runtime_speed']}\nar 15 0\n"
         inp += "ar 16 1\n"
@@ -1029,7 +1143,7 @@ def run_device(ctx, stats):
                 continue
             enows, _, _ = effective_phases(d, s["nows"], setup, passes)
             case = {"lcd": d, "nows": enows, "tag": s["tag"], "script_head": src.splitlines()[4:6],
-                    "runtime_speed": s["runtime_speed"], "busy": bool(s.get("busy"))}
+                    "runtime_speed": s["runtime_speed"], "busy": bool(s.get("busy")), "clock": s.get("clock") or "low"}
             if len(enows) != len(s["nows"]):
                 case["first_pass_at"] = s["nows"][0]       # the pass in which the main-loop call sites run
             model_cases.append(device_model_case(d, enows))
@@ -1047,6 +1161,10 @@ def run_device(ctx, stats):
         tally(stats, "dev_animations_per_display", len(case["lcd"]["anims"]))
         tally(stats, "dev_cols", case["lcd"]["cols"])
         tally(stats, "dev_wiring", "i2c" if case["lcd"]["i2c"] else "parallel")
+        tally(stats, "dev_clock_of_the_run", case.get("clock") or "low")
+        tally(stats, "dev_sketch_family", case["tag"].split(":")[0])
+        if any(0 < a[3] and any(ULONG_MAX - a[3] < t <= ULONG_MAX for t in case["nows"][:-1]) for a in case["lcd"]["anims"]):
+            stats["dev_displays_ticked_within_speed_ms_of_ULONG_MAX_and_again_before_it"] = stats.get("dev_displays_ticked_within_speed_ms_of_ULONG_MAX_and_again_before_it", 0) + 1
         tally(stats, "dev_call_site_placement", case["lcd"].get("wrap") or "top-level")
         tally(stats, "dev_call_arguments", "text variable + run-time loop flag" if case["lcd"].get("via_vars") else "run-time speed and row" if case["runtime_speed"] else "literals")
         if case["lcd"].get("handler_anims"):
@@ -1579,8 +1697,7 @@ def replay(data):
         if not t["ok"]:
             print("REPRODUCED: the transpiler rejects the script", t)
             return 1
-        incs = [nows[0]] + [b - a for a, b in zip(nows, nows[1:])]
-        inp = "clock0 0\npass " + " ".join(map(str, incs)) + "\n" + (f"ar 14 {rts}\nar 15 0\n" if rts else "") + "ar 16 1\n"
+        inp = clock_input(nows) + (f"ar 14 {rts}\nar 15 0\n" if rts else "") + "ar 16 1\n"
         for what, exp, obs in injection_problems(t["cpp"]):
             col.fail(what, case, exp, obs, key="dev-tick-injected")
         o = fw.run_sketches([{"cpp": t["cpp"], "input": inp, "loops": len(nows),
@@ -1650,11 +1767,18 @@ def run(ctx: C.Ctx):
         "rule": "host: (4 styles x cols in {1,2,3,8,16,20,40} x len in {0,1,cols-1,cols,cols+1,2cols} x loop x speed in {0,1,100} x tick schedule in {ontime,early,late,equal,burst}) "
                 "(quick: two speed/schedule picks per cell rotating over all 15 pairs, thorough: all, plus every other width 1..40 with two picks per cell), plus seeded random single-animation cases "
                 "(speeds -5..70000, mixed and burst schedules) and multi-animation cases with invalid styles/rows; "
-                "device: the same grid, one LCD object per case batched into sketches that share a scripted millis() schedule (first pass at 1, 7, 1000 or just below 2^31 ms), plus speeds 7/1000/70000 "
+                "device: the same grid, one LCD object per case batched into sketches that share a scripted millis() schedule (first pass at 1, 7, 1000, just below 2^31, 2^32 or 2^63 ms - the run crosses that value - "
+                "or the whole schedule shifted so that its LAST pass is at the largest unsigned long / 1 / 3 ms below it), plus speeds 7/1000/70000 "
                 "(thorough also 2/40000 and the in-between widths 4..39), plus multi-animation / several-display / run-time-argument sketches on mixed and burst schedules, half of them with a main loop doing other work; "
                 "schedule 'burst' = late passes (2..5 periods) each followed by several quick passes (0, 1, period/4 ... apart) and then one exactly on time; 'mixed' draws gaps from {0,1,p-1,p,p+1,2p,p/2,3p+1,7p+3}; "
                 "tick histories are long enough to contain more than len+2*cols+2 due ticks (non-looping). The per-animation relations (rate limit over all pairs of steps, no due pass skipped, no frame after a skipped due pass, "
                 "termination bound, one frame per step) are evaluated for every animation that has its row to itself (device) / for every animation (host). "
+                "Clock-width families (8 displays each: 4 styles x loop on/off, four geometries, call sites at top level / in a def / in the main loop / in if / in try): "
+                "top = short schedules (early/burst/mixed gaps closed by an on-time pass, a pass in the same ms and two early ones) ENDING at ULONG_MAX, ULONG_MAX-1 or ULONG_MAX-3, speeds 1/100/1000 (thorough 1/7/100/1000/70000 x six schedule kinds): every animation steps within speed_ms of the largest unsigned long and is ticked early again while the clock is still below it; "
+                "cross = short schedules starting speed/2+1, 3*speed+1 or 1 ms below 2^31, 2^32, 2^63; bigspeed = speed_ms 2^31+5 and 2^32+7 on burst schedules (thorough also ending at ULONG_MAX); "
+                "verylate = passes late by 2^31+3, 2^32+5 and 2^33+speed ms each followed by early and on-time ones; rollover = runs that start 130 / 250 ms below 2^64 and continue beyond it, one of them with passes exactly at 2^64 (millis() reads 0) - "
+                "these are compared with the W-bit model (cell writes, matrix per pass) but NOT judged by the time relations of the oracle (register values not non-decreasing). "
+                "Host schedules: a quarter of them start at 2^32-3p-2, 2^53-p-1, 2^63-2p, 2^64-5p-3 or 10^30 (Python ints; a limiter through float or a fixed width goes wrong there). "
                 "Call-site placement: every third display of a grid sketch and every display of the multi sketches has its animate calls inside a block that runs once (if / else / elif / for / while / try / if>for>try), inside a function called once from setup (def), or - starting in the first pass, after that pass's idle tick calls, the first pass then playing the part of setup() for the display model and the oracle - inside `while True:` under a run-once guard (mainloop), nested there in for>try (mainloop-nested), or inside a function the main loop calls once (def-in-loop), "
                 "two displays per multi sketch have call sites inside (nested) except handlers (one of them only there: it never starts, its rows must stay blank, its tick calls must exist); on every transpiled sketch the "
                 "emitted text is checked: each state variable that a start call names - in setup(), in loop() or in a user function - is declared and has exactly one tick call of its style at the top level of loop(). "
@@ -1670,11 +1794,14 @@ def run(ctx: C.Ctx):
                  "1 <= cols <= 40; the place of the lcd.animate call sites is not restricted any more (before the main loop, inside it, inside functions, at any block depth: the two findings that "
                  "excluded the main loop and defs are repaired, kind=fixed, and suppress nothing); a call site inside the main loop is generated under a run-once guard (an unguarded one restarts its animation in every pass - by design of animate); "
                  "sketches that are compiled use bare `except:` handlers only (a named exception class becomes catch (<Class> &), undeclared on any core: C06)",
-        "unmodelled": ["device: row outside the display (library clamps the row), millis() wrap-around, speed_ms >= 2^W (wraps in the unsigned cast)",
+        "unmodelled": ["device: row outside the display (library clamps the row); speed_ms >= 2^W (the unsigned cast wraps it: modelled by ulong_cast, but the rate-limit theorems assume speed_ms < 2^W); "
+                       "the executed firmware has W = 64 only (g++ x86-64) - the theorems quantify over W, the 32-bit AVR arithmetic itself is not executed; "
+                       "across the roll-over of millis() the model is exact (C18_rollover_trace_device_partial) but the property's oracle is not evaluated there (register values are not non-decreasing: outside the quantifier); "
+                       "a step taken in the millisecond in which millis() reads 0 is followed by an immediate step (C18_rollover_zero_reading_refuted: outside the quantifier, remark only)",
                        "device: DDRAM addressing beyond 40 columns / 4-row interleaving (shown unreachable by C18_frame_geometry_device)",
                        "host: non-int now_ms / speed_ms, LCD.begin() during an animation"],
         "trusted_base": C.COMMON_TRUSTED + ["harness/impl/c18_impl.py (real LCD object; buffer item assignments recorded by a list subclass; time.sleep replaced by a counter)",
-                                            "mock/LiquidCrystal.h + mock_core.cpp (cursor-addressed DDRAM, LW/LD events, scripted millis())", "g++ 12 -O0",
+                                            "mock/LiquidCrystal.h + mock_core.cpp (cursor-addressed DDRAM, LW/LD events, scripted millis() incl. the clockbase offset that wraps modulo 2^64 like a real counter)", "g++ 12 -O0",
                                             "harness/fw.py, transpile_impl.py"],
     })
-    ctx.assumptions += ["tick timestamps are positive and non-decreasing (the property's quantifier)", "device text literals contain no control characters, quotes or backslashes (string-literal escaping is C06's subject)"]
+    ctx.assumptions += ["tick timestamps are positive and non-decreasing (the property's quantifier)", f"unsigned long has {WBITS} bits in the executed firmware (g++ x86-64); the device theorems quantify over the width W", "device text literals contain no control characters, quotes or backslashes (string-literal escaping is C06's subject)"]
